@@ -237,3 +237,45 @@ T('C03', 'twin-reorder-disjoint-arms', MG,
   '        elif chunktype in ("A/P", "A/R"):\n            action = decisions.tryresolve(path, d0, d1, item_strategy)\n            if not action:\n                decisions.local_then_remote(path, d0, d1, conflict=True)\n        elif chunktype in ("P/A", "R/A"):\n            action = decisions.tryresolve(path, d0, d1, item_strategy)\n            if not action:\n                decisions.remote_then_local(path, d0, d1, conflict=True)\n',
   '        elif chunktype in ("P/A", "R/A"):\n            action = decisions.tryresolve(path, d0, d1, item_strategy)\n            if not action:\n                decisions.remote_then_local(path, d0, d1, conflict=True)\n        elif chunktype in ("A/P", "A/R"):\n            action = decisions.tryresolve(path, d0, d1, item_strategy)\n            if not action:\n                decisions.local_then_remote(path, d0, d1, conflict=True)\n')
 T('C03', 'twin-new-sanity-assert', MG, '            decisions.onesided(path, d0, d1)\n', '            assert len(d0) + len(d1) <= 2\n            decisions.onesided(path, d0, d1)\n')
+
+# ------------------------------------------------------------------------------------------ C05
+M('C05', 'agreement-test-after-P/P-arm', MG,
+  '        # Exactly the same modifications\n        elif d0 == d1:\n            decisions.agreement(path, d0, d1)\n\n        # Should always agree above because of chunking\n        elif chunktype == "R/R":',
+  '        # Should always agree above because of chunking\n        elif chunktype == "R/R" and d0 != d1:', 'R05.1',
+  edits=[(MG, '        elif chunktype in ("AR/A", "A/AR", "A/A", "AR/AR"):', '        elif d0 == d1:\n            decisions.agreement(path, d0, d1)\n        elif chunktype in ("AR/A", "A/AR", "A/A", "AR/AR"):')])
+M('C05', 'onesided-arm-consults-strategy', MG,
+  '        elif not (bool(d0) and bool(d1)):\n            decisions.onesided(path, d0, d1)',
+  '        elif not (bool(d0) and bool(d1)):\n            if list_strategy == "use-base":\n                decisions.base(path, d0, d1)\n            else:\n                decisions.onesided(path, d0, d1)', 'R05.1')
+M('C05', 'onesided-defaults-to-conflict', DEC, '    def onesided(self, path, local_diff, remote_diff, conflict=False):', '    def onesided(self, path, local_diff, remote_diff, conflict=True):', 'R05.1')
+M('C05', 'dict-agreement-after-add-arm', MG,
+  '        elif ld == rd:\n            # If inserting/replacing/patching produces the same value, just use\n            # it\n            decisions.agreement(path, ld, rd)\n        elif ld.op == DiffOp.ADD:',
+  '        elif ld.op == DiffOp.ADD:', 'R05.1',
+  edits=[(MG, '        elif ld.op == DiffOp.REPLACE:\n            # (7)', '        elif ld == rd:\n            decisions.agreement(path, ld, rd)\n        elif ld.op == DiffOp.REPLACE:\n            # (7)')])
+M('C05', 'union-without-conflict-guard', STR,
+  "        for d in decisions:\n            if d.conflict:\n                # do not to apply to subdecisions on dicts\n                if not isinstance(",
+  "        for d in decisions:\n            if True:\n                # do not to apply to subdecisions on dicts\n                if not isinstance(", 'R05.2')
+M('C05', 'list-resolver-loses-entry-guard', STR,
+  'def resolve_conflicted_decisions_list(path, base, decisions, strategy):\n    if not (strategy and strategy != "mergetool" and decisions.has_conflicted()):\n        return\n',
+  'def resolve_conflicted_decisions_list(path, base, decisions, strategy):\n    if not (strategy and strategy != "mergetool"):\n        return\n', 'R05.2')
+M('C05', 'generic-resolves-unconflicted', STR, '            if d.conflict and not d.get("strategy"):\n                d.action = action\n                d.conflict = False',
+  '            if not d.get("strategy"):\n                d.action = action\n                d.conflict = False', 'R05.2')
+M('C05', 'transient-arm-picks-wrong-side', MG,
+  '                elif p1[0].op == DiffOp.REMOVERANGE and is_transient:\n                    # Patch contains only transient changes, pick deletion\n                    decisions.remote(path, p0, p1)',
+  '                elif p1[0].op == DiffOp.REMOVERANGE and is_transient:\n                    # Patch contains only transient changes, pick deletion\n                    decisions.local(path, p0, p1)', 'R05.3')
+M('C05', 'R/A-dropped-from-tuple', MG, 'elif chunktype in ("P/A", "R/A"):', 'elif chunktype in ("P/A",):', 'R05.3')
+M('C05', 'P/A-arm-uses-local-first', MG, '                decisions.remote_then_local(path, d0, d1, conflict=True)', '                decisions.local_then_remote(path, d0, d1, conflict=True)', 'R05.3')
+M('C05', 'dict-remote-remove-not-transient-checked', MG,
+  '            elif rd.op == DiffOp.REMOVE and is_diff_all_transients([ld], path, transients):', '            elif rd.op == DiffOp.REMOVE:', 'R05.3')
+M('C05', 'git-theirs-for-local', PP, '        cmd += " --ours"', '        cmd += " --theirs"', 'R05.3')
+M('C05', 'remote-deleted-marker-not-conflicted', STR,
+  '        decisions.remote_then_local(path, local_diff, remote_diff, conflict=True, strategy=strategy)',
+  '        decisions.remote_then_local(path, local_diff, remote_diff, conflict=False, strategy=strategy)', 'R05.3')
+T('C05', 'twin-rename-ld-rd', MG, 'ld, rd = counterdiff, thediff', 'ld, rd = (counterdiff, thediff)')
+T('C05', 'twin-reorder-conjuncts', MG, 'if p0[0].op == DiffOp.REMOVERANGE and is_transient:', 'if is_transient and p0[0].op == DiffOp.REMOVERANGE:')
+T('C05', 'twin-compare-operands-swapped', MG, '        elif d0 == d1:\n            decisions.agreement(path, d0, d1)', '        elif d1 == d0:\n            decisions.agreement(path, d0, d1)')
+T('C05', 'twin-mirror-arms-swapped-order', MG,
+  '        elif chunktype in ("A/P", "A/R"):\n            action = decisions.tryresolve(path, d0, d1, item_strategy)\n            if not action:\n                decisions.local_then_remote(path, d0, d1, conflict=True)\n        elif chunktype in ("P/A", "R/A"):\n            action = decisions.tryresolve(path, d0, d1, item_strategy)\n            if not action:\n                decisions.remote_then_local(path, d0, d1, conflict=True)\n',
+  '        elif chunktype in ("R/A", "P/A"):\n            action = decisions.tryresolve(path, d0, d1, item_strategy)\n            if not action:\n                decisions.remote_then_local(path, d0, d1, conflict=True)\n        elif chunktype in ("A/R", "A/P"):\n            action = decisions.tryresolve(path, d0, d1, item_strategy)\n            if not action:\n                decisions.local_then_remote(path, d0, d1, conflict=True)\n')
+T('C05', 'twin-extra-log-in-both-mirror-arms', MG,
+  '                    decisions.local(path, p0, p1)\n                elif p1[0].op == DiffOp.REMOVERANGE and is_transient:\n                    # Patch contains only transient changes, pick deletion\n                    decisions.remote(path, p0, p1)',
+  '                    nbdime.log.debug("transient")\n                    decisions.local(path, p0, p1)\n                elif p1[0].op == DiffOp.REMOVERANGE and is_transient:\n                    nbdime.log.debug("transient")\n                    decisions.remote(path, p0, p1)')
